@@ -240,6 +240,7 @@ func checkC06(c *km.Ctx) {
 	checkKeymasterSigned(c, s, "R-C06-4")
 	checkAuthBits(c, s, checkAuth, "R-C06-5")
 	checkIPCodec(c, s, "R-C06-6")
+	checkExtractRequiresExtension(c, s, "R-C06-6")
 }
 
 // authTypeConsts reads the AuthType* constants of package main.
